@@ -30,6 +30,14 @@ def cases(ctx):
                 tx = Transaction(ins, [TxOutput(1000, Script(['OP_1', 'aa' * 32]))], has_segwit=True, witnesses=wits)
                 ctx.count(f'stack-{n}')
                 yield c(tx, f'stack-{n}-{itemlen}')
+    # has_segwit set but no witness stacks attached yet (an unsigned transaction used for fee estimation)
+    for nin in (1, 2, 3, 5):
+        for k in range(0, nin):
+            ins = [TxInput(G.rbytes(rng, 32).hex(), i) for i in range(nin)]
+            tx = Transaction(ins, [TxOutput(1000, Script(['OP_1', 'aa' * 32]))], has_segwit=True,
+                             witnesses=[TxWitnessInput([G.rbytes(rng, 64).hex()]) for _ in range(k)])
+            ctx.count('unsigned-segwit')
+            yield c(tx, f'unsigned-{nin}-{k}')
     for _ in range(ctx.n(60, 3000)):
         tx = G.gen_tx(rng, names, max_in=4, max_out=4, big=False)
         muts = G.random_mutations(rng, tx, names)
